@@ -1,6 +1,6 @@
 (* Bridge (property C06): what the source says now is what the hand-written model assumes. *)
 From Coq Require Import List NArith Bool.
-From PV Require Import Gen.PhoutGen Model.Phout.
+From PV Require Import Gen.PhoutGen Model.Phout Model.Shutdown Proofs.ShutdownProofs.
 Import ListNotations.
 Local Open Scope N_scope.
 
@@ -10,3 +10,13 @@ Lemma phout_keys_bridge :
    gen_key_interval_event_micro; gen_key_request_bytes; gen_key_response_bytes; gen_key_errno; gen_key_proto_code]
   = [0; 1; 2; 3; 4; 5; 6; 7; 8; 9] /\ gen_fields_num = 10.
 Proof. split; reflexivity. Qed.
+
+(* cli.awaitPandoraTermination, signal branch: pandora.Wait() is called between receiving
+   Run's result and log.Fatal (read from cli/cli.go by the translator). *)
+Lemma cli_waits_bridge : cli_waits = true.
+Proof. reflexivity. Qed.
+
+Lemma signal_flush_now : forall pools h s r,
+  crun cli_waits (proc_init pools) h = Some s -> exited s = Some r -> orderly r = true ->
+  all_true (aggr_closed s) = true.
+Proof. rewrite cli_waits_bridge. exact signal_flush_waiting. Qed.
